@@ -207,6 +207,11 @@ func gen(rng *rand.Rand, idx int) tcase {
 	}
 	if rng.IntN(8) == 0 {
 		c.Client = "file"
+		if rng.IntN(3) == 0 {
+			// the caller's context has ended before NewStore is even called (a start-up deadline used up by
+			// earlier steps): a file-backed client answers all the same, at once
+			c.Ctx, c.CtxAt = "deadline", 0
+		}
 		for _, d := range pool {
 			if rng.IntN(4) != 0 {
 				c.FileHas = append(c.FileHas, d)
@@ -273,10 +278,11 @@ func TestC10(t *testing.T) {
 	if r.Only < 0 {
 		realClientOddReplies(t, r, tmp)
 		realClientRetryAfter(t, r)
+		embeddedDeclarations(t, r, tmp)
 		bigFileCache(t, r, tmp)
 		uncleanStructPrefixes(t, r)
 	}
-	r.Require("cases_with_a_poll_ticker_of_the_callers", "retry_after_cases", "undeclared_null_entry_cases", "big_file_cache_restarts", "struct_prefix_spellings", "real_client_odd_replies", "returned_nil", "returned_error_ctx", "complete_cache_no_request", "retry_rounds", "fileclient_missing", "fileclient_entries_without_value", "misconfig", "cache_ignored_as_invalid")
+	r.Require("embedded_struct_declarations", "cases_with_a_poll_ticker_of_the_callers", "retry_after_cases", "undeclared_null_entry_cases", "big_file_cache_restarts", "struct_prefix_spellings", "real_client_odd_replies", "returned_nil", "returned_error_ctx", "complete_cache_no_request", "retry_rounds", "fileclient_missing", "fileclient_entries_without_value", "misconfig", "cache_ignored_as_invalid")
 	r.Rule("seeded cases = declared names (1-6 of a 6-name pool, with duplicates, via Secrets and/or a run-time generated tagged struct) x cache content (none, empty, partial, complete, stale, invalid JSON, null entry, entry without secret, empty key, wrong JSON type, one entry with a wrongly typed field, read error) x per-secret service script (ok, fail k times, fail k times with the client's own timeout error, fail until T, hang until T, slow, never; failures with and without the context error wrapped) x expiry age {0, 1h, 30d} with old/zero/future cache stamps x context (background, deadline, cancel at T) x client kind (scripted / real FileClient). Distinct = (cache kind, set of script modes, context kind, client kind, outcome)")
 }
 
@@ -936,5 +942,93 @@ func realClientRetryAfter(t *testing.T, r *evid.Run) {
 				r.Violation("slow-progress", -1, fmt.Sprintf("%s: NewStore returned at %v", what, at), nil)
 			}
 		})
+	}
+}
+
+// Creds is embedded in the configuration structs below; its tagged fields are declarations like any other.
+type Creds struct {
+	User  string `setec:"user"`
+	Token []byte `setec:"token"`
+	Note  string // untagged
+}
+
+type deeper struct {
+	Creds
+	Region string `setec:"region"`
+}
+
+// embeddedDeclarations: secrets are also declared by the tagged fields of structs EMBEDDED in the struct handed
+// to NewStore (one level, two levels). They are declared secrets: fetched, given values, and - with a
+// file-backed client that lacks one of them - a reason to fail at once.
+func embeddedDeclarations(t *testing.T, r *evid.Run, tmp string) {
+	type one struct {
+		Creds
+		Direct string `setec:"direct"`
+	}
+	type two struct {
+		deeper
+		Direct string `setec:"direct"`
+	}
+	all := []string{"app/user", "app/token", "app/region", "app/direct"}
+	for ci, mk := range []func() (any, func() map[string]string){
+		func() (any, func() map[string]string) {
+			v := &one{}
+			return v, func() map[string]string { return map[string]string{"app/user": v.User, "app/token": string(v.Token), "app/direct": v.Direct} }
+		},
+		func() (any, func() map[string]string) {
+			v := &two{}
+			return v, func() map[string]string {
+				return map[string]string{"app/user": v.User, "app/token": string(v.Token), "app/region": v.Region, "app/direct": v.Direct}
+			}
+		},
+	} {
+		for _, missing := range []string{"", "app/user", "app/token", "app/direct"} {
+			// a file-backed client holding everything but `missing`
+			doc := map[string]*cacheEntry{}
+			for _, n := range all {
+				if n != missing {
+					doc[n] = &cacheEntry{Secret: &api.SecretValue{Value: svcValue(n), Version: 3}}
+				}
+			}
+			b, _ := json.Marshal(doc)
+			fp := filepath.Join(tmp, fmt.Sprintf("emb%d.json", ci))
+			os.WriteFile(fp, b, 0o600)
+			fc, err := setec.NewFileClient(fp)
+			if err != nil {
+				t.Fatal(err)
+			}
+			target, fields := mk()
+			ctx, cancel := context.WithTimeout(context.Background(), 2*time.Second)
+			st, err := setec.NewStore(ctx, setec.StoreConfig{Client: fc, Structs: []setec.Struct{{Value: target, Prefix: "app"}}, PollInterval: -1, Logf: func(string, ...any) {}})
+			cancel()
+			r.Eval(1)
+			r.Count("embedded_struct_declarations", 1)
+			r.Distinct(fmt.Sprintf("embedded declarations depth=%d missing=%t", ci+1, missing != ""))
+			what := fmt.Sprintf("struct with tagged fields in an embedded struct (%d level(s)) and one of its own, file-backed client lacking %q", ci+1, missing)
+			if missing != "" {
+				if err == nil {
+					r.Violation("fileclient-missing-accepted", -1, what+": NewStore succeeded although a declared secret has no value anywhere", nil)
+					st.Close()
+				}
+				continue
+			}
+			if err != nil {
+				r.Violation("error-while-context-alive", -1, what+": "+err.Error(), nil)
+				continue
+			}
+			for n, got := range fields() {
+				if got != string(svcValue(n)) {
+					r.Violation("struct-field-not-filled", -1, fmt.Sprintf("%s: NewStore succeeded and the field for %q holds %q", what, n, got), nil)
+				}
+				if p := func() (p any) {
+					defer func() { p = recover() }()
+					st.Secret(n).Get()
+					return nil
+				}(); p != nil {
+					r.Violation("declared-secret-without-value", -1, fmt.Sprintf("%s: Secret(%q) panics: %v", what, n, p), nil)
+				}
+			}
+			st.Close()
+		}
 	}
 }
